@@ -8,8 +8,9 @@ Specification: an abstract table T (rows x width): row r has cnt(r) entries val(
 with start_index in {absent, 0, 1, '0', '1'}, missing entries as NaN (float table), as the _FillValue attribute (integer table) or not at
 all (cnt = width), rows first or columns first.  Decoding must give back T: entry (r, j) is masked iff j >= cnt(r), and equals val(r, j)
 otherwise -- the same T whatever the encoding, hence identical faces.
-NOT decided here (loops with loop-carried dictionaries / counters over a symbolic number of faces): the derivation of missing tables
-(make_edge_node_array, make_face_edge_array, make_edge_face_array, make_face_face_array, _face_and_node_pair_iter) -- bounded native
+Derived tables: make_edge_face_array and make_face_face_array by loop invariants, _face_and_node_pair_iter at its yield, make_edge_node_array
+at its dictionary update (what every side of every face records).  NOT decided here (dictionaries keyed by symbolic node pairs): what the
+dictionary of sets of make_edge_node_array holds after the loops and the table made from it, and make_face_edge_array -- bounded native
 stand-in harness/native/C10.py, labelled bounded.
 """
 from __future__ import annotations
@@ -58,6 +59,9 @@ def scenarios(tier):
         out.append({'name': f'derived edge-face table (make_edge_face_array, loop invariant)[faces of up to {maxn} edges]', 'fn': 'scn_make_edge_face', 'kwargs': {'maxn': maxn}})
     for sized in (True, False):
         out.append({'name': f'edge_count[edge dimension {"with" if sized else "without"} a size in the dataset]', 'fn': 'scn_edge_count', 'kwargs': {'sized': sized}})
+    for maxn in (3, 4, 6):
+        out.append({'name': f'derived edge-node table: what the loop records for each side (make_edge_node_array at its dictionary update)[faces of up to {maxn} nodes]',
+                    'fn': 'scn_edge_node_body', 'kwargs': {'maxn': maxn}})
     for n in range(0, 8):
         out.append({'name': f'utils.pairwise[{n} entries]', 'fn': 'scn_pairwise', 'kwargs': {'n': n}})
     for maxn, fill, si in ((4, 'int_fill', 1), (5, 'nan', 0), (5, 'int_fill', 0), (6, 'nan', 1), (3, 'none', 1)):
@@ -503,6 +507,66 @@ def scn_pair_iter(c, maxn, fill, si):
     st = [n for n in ast.walk(f.node) if isinstance(n, ast.Yield)]
     c.check('one yield: (face_index, list(utils.pairwise(node_indexes)))',
             len(st) == 1 and ast.unparse(st[0].value) == '(face_index, list(utils.pairwise(node_indexes)))')
+
+
+def scn_edge_node_body(c, maxn):
+    """Mesh2DTopology.make_edge_node_array (real body) at its dictionary update `low_highs[low].add(high)`, for an arbitrary face f and an
+    arbitrary side j of it (both loops are entered with a Skolem iteration; the callee `_face_and_node_pair_iter` is replaced by its contract -
+    verified by the scenarios 'the sides of every face' and 'utils.pairwise' above: face k yields (k, its cnt(k) consecutive node pairs closed
+    with (last, first))).  What is recorded for the side (a, b) is: under the key min(a, b), the value max(a, b) - so the two faces that share an
+    edge, which name it in opposite directions, record the same entry.  The accumulator is a defaultdict(set) created empty before the loop and
+    the rows of the result are the (key, member) pairs of it; what a dictionary of sets keeps (one entry per distinct pair) is Python's, and the
+    table as a whole is compared natively (bounded)."""
+    import ast
+    import collections
+    from pyvc.api import run_until
+    from pyvc.lib.seq import SymSeq
+    it = new_interp(use=[FILL_KEY])
+    ds = inputs.ugrid_mesh(c, maxn=maxn, fill='int_fill', start_index=0, edges='both')
+    info = ds.info
+    topo = it.instantiate(cls(it, 'emsarray.conventions.ugrid', 'Mesh2DTopology'), [ds], {})
+    box = {}
+
+    def sides(f):
+        cnt = info['mesh_count'](f)
+
+        def side(j):
+            box['j'] = j
+            nxt = mk_int(z3.If(zint(j) + 1 < zint(cnt), zint(j) + 1, 0))
+            return (info['mesh_node'](f, j), info['mesh_node'](f, nxt))
+        return SymSeq(cnt, side, 'list')
+
+    def face(k):
+        box['f'] = k
+        return (k, sides(k))
+    topo.attrs['_face_and_node_pair_iter'] = lambda *a, **kw: SymSeq(info['nface'], face, 'gen')      # callee contract
+    _, f = it.class_attr(topo.cls, 'make_edge_node_array')
+    env = run_until(it, f, 'low_highs[', lambda: method(it, topo, 'make_edge_node_array'))
+    if env is None:
+        raise PathEnd()           # no face, or a face without sides: nothing is recorded
+    fi, pair, low, high, acc = (env.lookup(n) for n in ('face_index', 'pair', 'low', 'high', 'low_highs'))
+    fk, jk = box['f'], box['j']
+    a, b = info['mesh_node'](fk, jk), info['mesh_node'](fk, mk_int(z3.If(zint(jk) + 1 < zint(info['mesh_count'](fk)), zint(jk) + 1, 0)))
+    c.check('the side being recorded is side j of face f (consecutive nodes of f, the last one paired with the first)',
+            s_and(s_eq(fi, fk), s_eq(tuple(pair)[0], a), s_eq(tuple(pair)[1], b)))
+    c.check('it is recorded under its lower node', s_eq(low, mk_int(z3.If(zint(a) <= zint(b), zint(a), zint(b)))))
+    c.check('with its higher node as the member', s_eq(high, mk_int(z3.If(zint(a) <= zint(b), zint(b), zint(a)))))
+    c.check('the accumulator is a defaultdict of sets that was empty before the loop', isinstance(acc, collections.defaultdict) and acc.default_factory is not None
+            and len(acc) == 0 and isinstance(acc.default_factory(), (set, core.TSet)))
+    def same(node, text, mode='exec'):          # same syntax tree as `text` (independent of how a Python version prints it)
+        want = ast.parse(text, mode=mode)
+        return ast.dump(node) == ast.dump(want.body[0] if mode == 'exec' else want.body)
+    loops = sorted((n for n in ast.walk(f.node) if isinstance(n, ast.For)), key=lambda n: n.lineno)
+    c.check('two nested loops (faces, sides of a face) whose only statement besides the unpacking is the dictionary update',
+            len(loops) == 2 and len(loops[0].body) == 1 and loops[0].body[0] is loops[1] and not loops[0].orelse and not loops[1].orelse
+            and same(loops[0].iter, 'self._face_and_node_pair_iter()', 'eval') and same(loops[1].iter, 'node_pairs', 'eval')
+            and isinstance(loops[0].target, ast.Tuple) and [getattr(e, 'id', None) for e in loops[0].target.elts] == ['face_index', 'node_pairs']
+            and getattr(loops[1].target, 'id', None) == 'pair' and len(loops[1].body) == 2
+            and same(loops[1].body[0], 'low, high = sorted(pair)') and same(loops[1].body[1], 'low_highs[low].add(high)'))
+    rets = [n for n in ast.walk(f.node) if isinstance(n, ast.Return)]
+    c.check('one return: the rows are the (key, member) pairs of the accumulator, as [low, high], in the mesh index type',
+            len(rets) == 1 and same(rets[0].value, 'numpy.array([[low, high] for low, highs in low_highs.items() for high in highs], '
+                                    'dtype=self.sensible_dtype)', 'eval'))
 
 
 def scn_pairwise(c, n):
